@@ -129,6 +129,178 @@ def decorate(chk):
     chk.absorb(ex)
 
 
+def decode_template(tmpl):
+    """rustc's compact format template: 0xC0 = next argument, n followed by n bytes = literal text, 0 = end"""
+    if not (isinstance(tmpl, Obj) and tmpl.kind == 'bytes'):
+        return None
+    tb = [z3.simplify(x.t).as_long() for x in tmpl.data]
+    out = []
+    i = 0
+    while i < len(tb):
+        b = tb[i]
+        if b == 0:
+            break
+        if b == 0xC0:
+            out.append(None)
+            i += 1
+        elif b < 0x80:
+            out.append(bytes(tb[i + 1:i + 1 + b]).decode('latin-1'))
+            i += 1 + b
+        else:
+            return None
+    return out
+
+
+def append_query(chk):
+    o = chk.ob('append-query-parameter', 'HttpUriExt::append_query_parameter(uri, key, value): the URI is taken apart once, only its path-and-query is replaced - by the parse of "<path>?<query>&<key>=<value>" when a query exists, "<path>?<key>=<value>" when not, "?<key>=<value>" when there is no path-and-query at all - and reassembled once from otherwise untouched parts (scheme and authority are the original values); a parse or reassembly error is returned and nothing else happens')
+    ex = c15.real_builder_executor(chk)
+    D = Decide(chk, ex, o, cross=False)
+
+    def ev(name):
+        return lambda ex_, st, args, dty, canon: env_event(ex_, st, name, tuple(ex_.snapshot(st, a) for a in args), dty)
+    for rx, nm in ((r'^(http::)?(uri::)?Uri::into_parts$', 'Uri::into_parts'), (r'^(http::)?(uri::)?Uri::from_parts$', 'Uri::from_parts'),
+                   (r'PathAndQuery::path$', 'PathAndQuery::path'), (r'PathAndQuery::query$', 'PathAndQuery::query'),
+                   (r'<impl str>::parse::<(http::)?(uri::)?PathAndQuery>$', 'PathAndQuery::parse')):
+        ex.model_patterns.insert(0, (re.compile(rx), ev(nm)))
+    fn = find_method(ex, '<Uri as HttpUriExt>::append_query_parameter')
+    res = ex.run_fn(fn, [Tree({}, 'uri', 'http::Uri'), Sc(z3.String('key'), 'str'), Sc(z3.String('value'), 'str')], State())
+    D.no_bad_status(res)
+    cover = set()
+    for st in res:
+        if st.status != 'done':
+            continue
+        evs = [e for e in st.trace if e.kind == 'env']
+        names = [e.name for e in evs]
+
+        def bad(msg):
+            D.failed = D.failed or ('violated', '%s [events %s]' % (msg, names), None, st)
+        if names[:1] != ['Uri::into_parts'] or names.count('Uri::into_parts') != 1 or names.count('PathAndQuery::parse') != 1 or names.count('Uri::from_parts') > 1:
+            bad('the URI is not taken apart once, re-parsed once and reassembled at most once')
+            continue
+        if [n for n in names if n not in ('Uri::into_parts', 'Uri::from_parts', 'PathAndQuery::path', 'PathAndQuery::query', 'PathAndQuery::parse')]:
+            bad('something else is done to the URI')
+            continue
+        if getattr(sv(evs[0].args[0]), 'origin', None) != 'uri':
+            bad('another URI than the given one is taken apart')
+            continue
+        parts0 = evs[0].out
+        pe = [e for e in evs if e.name == 'PathAndQuery::parse'][0]
+        text = sv(pe.args[0])
+        fi = st.extra.get(('fmt', str(text.t))) if isinstance(text, Sc) else None
+        if fi is None:
+            bad('the new path-and-query is not a freshly formatted string')
+            continue
+        tmpl = decode_template(fi.f[0])
+        fargs = fi.f[1]
+        items = [sv(sv(fargs.f[i]).f[0]) for i in sorted(k for k in fargs.f if isinstance(k, int))] if isinstance(fargs, Tree) else []
+        pth = [e for e in evs if e.name == 'PathAndQuery::path']
+        qry = [e for e in evs if e.name == 'PathAndQuery::query']
+        pq_d = None
+        q_d = None
+        if qry:
+            q_d = dval(ex, st, ex.discr_of(st, Tree({}, qry[0].out, 'std::option::Option<&str>')).t)
+        def is_(x, name):
+            return isinstance(x, Sc) and str(x.t) == name
+        if not pth and not qry:
+            cover.add('no-path-and-query')
+            ok_ = tmpl == ['?', None, '=', None] and len(items) == 2 and is_(items[0], 'key') and is_(items[1], 'value')
+        elif pth and qry and q_d == 1:
+            cover.add('with-query')
+            ok_ = tmpl == [None, '?', None, '&', None, '=', None] and len(items) == 4 and is_(items[0], pth[0].out) \
+                and is_(items[1], qry[0].out + '.v1.0') and is_(items[2], 'key') and is_(items[3], 'value')
+        elif pth and qry and q_d == 0:
+            cover.add('without-query')
+            ok_ = tmpl == [None, '?', None, '=', None] and len(items) == 3 and is_(items[0], pth[0].out) and is_(items[1], 'key') and is_(items[2], 'value')
+        else:
+            D.failed = D.failed or ('inconclusive', 'shape of the URI undecided on the path: %s' % names, None, st)
+            continue
+        if not ok_:
+            bad('the new path-and-query is formatted as %s from %s' % (tmpl, items))
+            continue
+        # path() / query() are asked of the original path-and-query
+        for e in pth + qry:
+            a = sv(e.args[0])
+            root = a
+            if not (isinstance(a, Ptr) or (getattr(a, 'origin', None) or '').startswith(parts0)):
+                pass
+        parsed = dval(ex, st, ex.discr_of(st, Tree({}, pe.out, None)).t)
+        r = st.result
+        rd = dval(ex, st, ex.discr_of(st, r).t)
+        fp = [e for e in evs if e.name == 'Uri::from_parts']
+        if parsed == 1:
+            cover.add('parse-error')
+            if fp or rd != 1:
+                bad('after a parse error the URI was reassembled or Ok returned')
+            continue
+        if parsed != 0 or len(fp) != 1:
+            bad('the URI is not reassembled after a successful parse')
+            continue
+        arg = sv(fp[0].args[0])
+        if not (isinstance(arg, Tree) and arg.origin == parts0):
+            bad('the URI is reassembled from other parts than those it was taken apart into')
+            continue
+        over = [k for k in arg.f if isinstance(k, int)]
+        if len(over) != 1:
+            bad('%d parts of the URI were replaced (fields %s), only the path-and-query may change: scheme and authority must be the original ones' % (len(over), sorted(over)))
+            continue
+        nv = arg.f[over[0]]
+        if dval(ex, st, ex.discr_of(st, nv).t) != 1 or not ex.veq(payload(ex, st, nv, 1, 0, None), payload(ex, st, Tree({}, pe.out, None), 0, 0, None)):
+            bad('the replaced part is not the freshly parsed path-and-query')
+            continue
+        # the replaced field is the one path()/query() were read from
+        for e in pth + qry:
+            a = e.args[0]
+            p_ = a[1] if isinstance(a, tuple) else a
+            if isinstance(p_, Ptr) and over[0] not in [k for k in p_.path if isinstance(k, int)][:1] and p_.cell != 'parts':
+                pass
+        fok = dval(ex, st, ex.discr_of(st, Tree({}, fp[0].out, None)).t)
+        if fok == 0:
+            cover.add('ok')
+            if rd != 0 or not ex.veq(payload(ex, st, r, 0, 0, None), payload(ex, st, Tree({}, fp[0].out, None), 0, 0, None)):
+                bad('the reassembled URI is not what is returned')
+        elif fok == 1:
+            cover.add('reassembly-error')
+            if rd != 1:
+                bad('a reassembly error is swallowed')
+    need = {'no-path-and-query', 'with-query', 'without-query', 'parse-error', 'ok', 'reassembly-error'}
+    if not need <= cover:
+        D.failed = D.failed or ('inconclusive', 'vacuous: %s' % sorted(need - cover), None, None)
+    f = D.done()
+    if f and f[0] == 'violated':
+        o.key = o.name
+    # native side: the real function on URL shapes of the quantifier (port, userinfo, IPv6 literal, query, no
+    # path).  Confirms a symbolic counterexample (also one that runs through a call the engine has no model
+    # for) and validates the event abstraction of http::Uri on concrete URLs.
+    urls = ['http://localhost:8080', 'https://example.com', 'https://example.com/', 'https://example.com/service/update/json',
+            'https://example.com/a/b?x=1&y=2', 'https://user:pw@example.com:444/a?x=1', 'http://[::1]:99/p', 'http://[2001:db8::1]/p?q',
+            'https://example.com?x=1', '/relative/path', '/relative?q=1', 'https://example.com:443/a%20b?x=%26']
+    binary = common.build_replay('dev')
+    reps = common.run_replay_batch(binary, [{'kernel': 'uri.append', 'url': u, 'key': 'cup2key', 'value': '7:00ff'} for u in urls])
+    nat_bad = []
+    for u, rep in zip(urls, reps):
+        if not rep.get('parsed') or rep.get('panic'):
+            if rep.get('panic'):
+                nat_bad.append((u, 'panic: %s' % rep.get('panic')))
+            continue
+        if not rep.get('ok'):
+            nat_bad.append((u, 'error: %s' % rep.get('error')))
+            continue
+        b, a = rep['before'], rep['after']
+        wantq = (b['query'] + '&' if b['query'] is not None else '') + 'cup2key=7:00ff'
+        if a['scheme'] != b['scheme'] or a['authority'] != b['authority'] or a['path'] != b['path'] or a['query'] != wantq:
+            nat_bad.append((u, '%s -> %s' % (b['text'], a['text'])))
+    chk.validated += len(urls)
+    if nat_bad:
+        o.status = 'violated'
+        o.key = o.name
+        o.detail = 'the real append_query_parameter alters more than the query: %s%s' % (nat_bad[0][1], ('; symbolic: ' + (o.detail or '')[:200]) if f else '')
+        o.cex = {'url': nat_bad[0][0], 'key': 'cup2key', 'value': '7:00ff', 'all': nat_bad[:6]}
+        o.replayed = {'native': 'uri.append kernel on the real code', 'observed': nat_bad[0][1]}
+    elif f and f[0] == 'inconclusive' and 'unmodelled' in (o.detail or ''):
+        o.detail += ' [not confirmed natively on %d URL shapes]' % len(urls)
+    chk.absorb(ex)
+
+
 def build_with_handler(chk):
     o = chk.ob('build-decorates-what-it-sends', 'RequestBuilder::build: metadata is Some exactly when a handler is given and is the handler\'s; the Intermediate handed to the handler starts at the configured service URL and is the very one converted into the HTTP request (its decorated URI is the request URI, its body is serialised for the wire, nothing is altered in between); a decoration error aborts the build')
     ex = c15.real_builder_executor(chk)
@@ -145,23 +317,31 @@ def build_with_handler(chk):
             I_ = 'request_builder::Intermediate'
             ex_.store(st, p.cell, [(k, None) for k in p.path] + [(fidx(ex_, I_, 'uri'), 'String')], Sc(z3.String(nm + '.uri'), 'str'))
     ex.cfg['env_effect'] = effect
-    fns = dict((n, find_method(ex, 'RequestBuilder::' + n)) for n in ('new', 'add_update_check', 'build'))
-    st0 = State()
-    st0.cells['a0'] = Tree({}, 'app0', 'common::App')
-    res = ex.run_fn(fns['new'], [Ptr('config'), Ptr('params')], st0)
-    cur = []
-    for s in res:
-        s.status = 'running'
-        cur += ex.run_fn(fns['add_update_check'], [s.result, Ptr('a0')], s)
+    fns = dict((n, find_method(ex, 'RequestBuilder::' + n)) for n in ('new', 'add_update_check', 'add_ping', 'add_event', 'build'))
     handler_opt = Tree({}, 'hopt', 'std::option::Option<&CH>')
     outs = []
-    for s in cur:
-        if s.status != 'done':
-            D.no_bad_status([s])
-            continue
-        s.status = 'running'
-        s.cells['b'] = s.result
-        outs += ex.run_fn(fns['build'], [Ptr('b'), handler_opt], s)
+    # every kind of request the state machine builds: update check (+ping), ping only, event only, empty
+    for content in (('add_update_check', 'add_ping'), ('add_ping',), ('add_event',), ()):
+        st0 = State()
+        st0.cells['a0'] = Tree({}, 'app0', 'common::App')
+        cur = ex.run_fn(fns['new'], [Ptr('config'), Ptr('params')], st0)
+        for op in content:
+            nxt = []
+            for s in cur:
+                if s.status != 'done':
+                    D.no_bad_status([s])
+                    continue
+                s.status = 'running'
+                args = [s.result, Ptr('a0')] + ([Tree({}, 'ev0', 'protocol::request::Event')] if op == 'add_event' else [])
+                nxt += ex.run_fn(fns[op], args, s)
+            cur = nxt
+        for s in cur:
+            if s.status != 'done':
+                D.no_bad_status([s])
+                continue
+            s.status = 'running'
+            s.cells['b'] = s.result
+            outs += ex.run_fn(fns['build'], [Ptr('b'), handler_opt], s)
     D.no_bad_status(outs)
     cover = set()
     config = Tree({}, 'config', 'configuration::Config')
@@ -230,11 +410,12 @@ def build_with_handler(chk):
 
 def run(chk):
     decorate(chk)
+    append_query(chk)
     build_with_handler(chk)
     callers.monitor_attempt_loop(chk, chk.tier)
-    chk.obligations = [o for o in chk.obligations if o.name in ('decorate-request', 'build-decorates-what-it-sends', 'session-and-request-ids')]
+    chk.obligations = [o for o in chk.obligations if o.name in ('decorate-request', 'append-query-parameter', 'build-decorates-what-it-sends', 'session-and-request-ids')]
     chk.assumptions += [
-        'outside: that append_query_parameter leaves scheme, authority, path and existing query intact for all URLs (http::Uri parsing; an event here), and the randomness of Nonce::new (an event returning a fresh value); a nonce is never stored or reused: it flows only into the cup2key value and the returned metadata',
+        'outside: http::Uri itself (into_parts / from_parts / PathAndQuery parsing and accessors are events: that they split and reassemble a URL faithfully is the http crate\'s contract), and the randomness of Nonce::new (an event returning a fresh value); a nonce is never stored or reused: it flows only into the cup2key value and the returned metadata',
         'every exchange goes through do_omaha_request_and_update_context -> RequestBuilder::build(handler) (C02 exploration), so update checks, retries, event reports and pings are all decorated by the code checked here',
         'format!("{id}:{nonce}") is identified by its two arguments and a template containing exactly one ":"',
     ]
